@@ -166,10 +166,17 @@ class WholePipe(io.RawIOBase):
         left = len(self.data) - self.pos
         if n is None or n < 0 or n > left:
             n = left
+        if self.max_read is not None and n > self.max_read:
+            n = self.max_read
         out = self.data[self.pos:self.pos + n]
         self.pos += n
         self.c.handed += len(out)
         return out
+
+    def readinto(self, buf):
+        out = self.read(len(buf))
+        buf[:len(out)] = out
+        return len(out)
 
 
 def partitions(n):
